@@ -209,6 +209,41 @@ def readApisDoNotWriteArguments (ws : List ParamWrite) : Bool := ws.all ParamWri
 def hasParamWrite (ws : List ParamWrite) (pkg func param : String) (h : ParamWriteHow) (a : ApiKind) : Bool :=
   ws.any (fun w => w.pkg == pkg && w.func == func && w.param == param && w.how == h && w.api == a)
 
+/-- round 9: a function with a slice result that returns a STORED slice (a field of the receiver / a parameter / a package
+    variable, a slice expression or a local alias of one, `append(stored, …)`, or the result of another such getter):
+    every caller gets the same backing array -/
+structure SliceGetter where
+  pkg : String
+  func : String
+  name : String      -- bare name: the join key (no type information in the extractor: over-approximating)
+  returns : String
+  deriving Repr
+
+/-- an `append(first, …)` whose first argument is the result of a call to a function of the four packages with a slice
+    result — directly, through a local, or through a slice parameter of `via` at a call site -/
+structure ResultAppend where
+  pkg : String
+  func : String
+  getter : String
+  via : String
+  deriving Repr
+
+/-- reviewed exceptions (pkg, func, getter, reason) -/
+def reviewedResultAppends : List (String × String × String × String) :=
+  [("boltz", "NewBaseStore", "GetRootPath",
+    "store construction of a child store (single goroutine, before the store is used): `indexPath = definition.Parent.GetRootPath()` " ++
+    "is the parent's `Indexer.basePath[0 : len(entityPath)-1]`, whose next slot already holds the constant IndexesBucket; " ++
+    "`append(indexPath, IndexesBucket)` writes that same constant there (the companion of the reviewed row of the append table)")]
+
+def ResultAppend.ok (gs : List SliceGetter) (r : ResultAppend) : Bool :=
+  !(gs.any (·.name == r.getter)) || reviewedResultAppends.any (fun e => e.1 == r.pkg && e.2.1 == r.func && e.2.2.1 == r.getter)
+
+/-- nobody appends onto a slice a getter handed out from an object's own storage -/
+def noAppendOntoHandedOutSlice (gs : List SliceGetter) (rs : List ResultAppend) : Bool := rs.all (ResultAppend.ok gs)
+
+def hasResultAppend (rs : List ResultAppend) (pkg func getter : String) : Bool :=
+  rs.any (fun r => r.pkg == pkg && r.func == func && r.getter == getter)
+
 def hasClosure (cs : List Closure) (pkg func : String) : Bool :=
   cs.any (fun c => c.pkg == pkg && c.func == func)
 
